@@ -32,12 +32,15 @@ seeded = open(f'{ROOT}/tools/design_section9_seeded.md').read() + '\n'.join(srow
 s = open(f'{ROOT}/tools/design_section9.md').read().replace('@@TABLE@@', table).replace('@@SEEDED@@', seeded)
 benign = ('| id | written for | the change | checks that still answer | what the checks had to learn (where recorded) |\n|---|---|---|---|---|\n'
           + '\n'.join(brows))
-ok4 = 0
+ok4 = ok5 = 0
 for d_ in sorted(os.listdir(f'{ROOT}/seeded')):
-    if d_.endswith('-ok4'):
+    if d_.endswith('-ok4') or d_.endswith('-ok5'):
         m_ = json.load(open(f'{ROOT}/seeded/{d_}/meta.json'))
         if not m_.get('pending') and not m_.get('imprecise'):
-            ok4 += 1
+            if d_.endswith('-ok4'):
+                ok4 += 1
+            else:
+                ok5 += 1
 import importlib.util, glob
 nf = nb = 0
 for vf in sorted(glob.glob(f'{ROOT}/selftest/variants_*.py')):
@@ -46,7 +49,7 @@ for vf in sorted(glob.glob(f'{ROOT}/selftest/variants_*.py')):
     spec.loader.exec_module(mod)
     nf += sum(1 for v in mod.VARIANTS if v['expect'] == 'violation')
     nb += sum(1 for v in mod.VARIANTS if v['expect'] != 'violation')
-s10 = open(f'{ROOT}/tools/design_section10.md').read().replace('@@BENIGN@@', benign).replace('@@OK4@@', str(ok4)) \
+s10 = open(f'{ROOT}/tools/design_section10.md').read().replace('@@BENIGN@@', benign).replace('@@OK4@@', str(ok4)).replace('@@OK5@@', str(ok5)) \
     .replace('@@CATALOGUE@@', f'{nf + nb} variants: {nf} faults reported, {nb} refactorings silent')
 s = s.replace('@@CATALOGUE@@', f'{nf + nb} variants: {nf} faults reported, {nb} refactorings silent')
 d = open(f'{ROOT}/DESIGN.md').read()
